@@ -75,7 +75,8 @@ def selector_cases(chk, rng, n):
     exprs, recs = [], []
     for i in range(n):
         K = int(rng.integers(1, 6))
-        tasks = np.arange(K)
+        # task ids need not be 0..K-1: every second pair of cases uses a sorted subset of 0..19
+        tasks = np.arange(K) if (i // 2) % 2 == 0 else np.sort(rng.choice(20, size=K, replace=False))
         kind = ["rr", "ducb"][i % 2]
         case = {"selector": kind, "n_tasks": K}
         chk.case(("selector", kind, K, i))
@@ -97,10 +98,12 @@ def selector_cases(chk, rng, n):
                     chk.fail("C11:RoundRobinSelector:alternation", "two feedbacks in a row were accepted", {"case": case})
                 except Exception:  # noqa: BLE001 - any exception rejects the call
                     pass
-            if any(not 0 <= t < K for t in seq) or any(seq[j + 1] != (seq[j] + 1) % K for j in range(len(seq) - 1)):
-                chk.fail("C11:RoundRobinSelector:cycle", "round-robin selection is not a cycle over valid task ids", {"case": case, "sequence": seq})
+            ids = [int(x) for x in tasks]
+            pos = [ids.index(t) if t in ids else -1 for t in seq]
+            if any(p < 0 for p in pos) or any(pos[j + 1] != (pos[j] + 1) % K for j in range(len(pos) - 1)):
+                chk.fail("C11:RoundRobinSelector:cycle", "round-robin selection is not a cycle over the valid task ids", {"case": {**case, "tasks": ids}, "sequence": seq})
             exprs.append(f"(sl sn (M.rr_run {nlit(0)} {nlit(K)} {nlit(len(seq))}))")
-            recs.append(("RoundRobinSelector", case, seq, None))
+            recs.append(("RoundRobinSelector", {**case, "tasks": ids}, pos, None))
         else:
             gamma, zeta, ub = float(rng.choice([0.5, 0.9, 0.95])), float(rng.choice([0.002, 0.1])), float(rng.choice([1.0, 10.0]))
             # every fourth bandit case is a long history with a discount close to 1: the 250-round window of the discounted
@@ -153,8 +156,8 @@ def selector_cases(chk, rng, n):
             for t in range(4 * K + 6):
                 a = int(sel.select())
                 picked.append(a)
-                if not 0 <= a < K:
-                    chk.fail("C11:DUCBGeneralized:valid-id", "selected task id is out of range", {"case": case, "task": a})
+                if a not in [int(x) for x in tasks]:
+                    chk.fail("C11:DUCBGeneralized:valid-id", "the selector returned an id that is not one of its tasks", {"case": {**case, "tasks": [int(x) for x in tasks]}, "task": a})
                     break
                 try:
                     sel.select()
@@ -359,6 +362,8 @@ def main(chk):
             chk.fail(f"C11:train_{r['name']}:budget", "a tabular routine executed more environment steps than its budget", {"case": case, "steps": n})
         elif n != m["step"] or resets != m["resets"]:
             chk.disagree("tabular-loop-skeleton", {"case": case, "impl": {"steps": n, "resets": resets}, "model": {"steps": m["step"], "resets": m["resets"]}})
+    import c06
+    c06.td7_checkpoint_mode(chk, rng, q, prefix="C11", check_warmup=True)      # TD7's deferred-training mode: no released epoch before the warm-up ends
     rollout_cases(chk, rng, 6 if q else 40)
     onpolicy_cases(chk, rng, 6 if q else 60)
     selector_cases(chk, rng, 12 if q else 200)
